@@ -83,7 +83,7 @@ def components(env, **cfg):
 
 
 @job("c09.pipeline", ("C09",), cfgs=[dict(nx=2, ny=3, symmetry=True, side="left", nsurf=1), dict(nx=2, ny=2, symmetry=False, nsurf=1),
-                                      dict(nx=2, ny=2, symmetry=True, side="right", nsurf=2, tail_sym=False, _tier=T)], ranges=RG9, cost=40)
+                                      dict(nx=2, ny=2, symmetry=True, side="right", nsurf=2, tail_sym=False)], ranges=RG9, cost=40)
 def pipeline(env, **cfg):
     """sectional forces of the compressible AeroPoint == rotate into the wind frame, stretch by B, solve the incompressible
     VLM (the real VLMStates group) at alpha = beta = 0, scale by 1/B^4, 1/B^3, rotate back"""
@@ -164,7 +164,7 @@ def kernel_rotation(env):
 
 @job("c09.mach0", ("C09",), cfgs=[dict(nx=2, ny=3, symmetry=True, side="left", nsurf=1), dict(nx=2, ny=2, symmetry=False, nsurf=1),
                                    dict(nx=2, ny=2, symmetry=True, side="left", nsurf=1, rotational=True),
-                                   dict(nx=2, ny=2, symmetry=True, side="right", nsurf=2, tail_sym=False, _tier=T)], ranges=RG9, cost=40)
+                                   dict(nx=2, ny=2, symmetry=True, side="right", nsurf=2, tail_sym=False)], ranges=RG9, cost=40)
 def mach0(env, rotational=False, **cfg):
     """at Mach 0 and zero sideslip the compressible and the incompressible solvers coincide.  The incompressible run is
     expressed in the wind frame through the kernel rotation lemma (c09.kernel_rotation), where the compressible solver
